@@ -618,7 +618,14 @@ class World:
                 return {"out": "skip-tainted"}
             self._violate("UNEXPECTED_EXC", i, "reference get_dimensionality raised %s" % _exc_desc(e), exc=type(e).__name__, site=_where(e))
             return {"out": "exc"}
-        arm = self._resolve_fault(fault, smr.counts, smr.lines if need_lines else None, smr.file_counts() if need_lines else None)
+        fl = smr.file_counts() if need_lines else None
+        if fl is not None:
+            # the dry run is the reference evaluation (matid.geometry.get_dimensionality called
+            # directly); the real call additionally runs about ten line events of the shortcut in
+            # clustering/cluster.py (cache test, radii gathering, sub-matrix cache fill), which is
+            # where C13's cached state is written: make it a stratum of its own
+            fl.setdefault("clustering/cluster.py", 10)
+        arm = self._resolve_fault(fault, smr.counts, smr.lines if need_lines else None, fl)
         self._journal(i, "real")
         sm = Seams(arm=arm, budget=50 * smr.total + 1000, count_lines=need_lines)
         try:
